@@ -24,7 +24,7 @@ LINKING = ("optimistic_dealloc", "pessimistic_dealloc")
 BUMPING = ("alloc_bytes_in", "alloc_aligned_bytes_in", "alloc_in")
 
 
-@rule("C02-P1", "C02", 3, "a range leaves the free list (is handed out, or accounted as discarded) only past the success edges of both the mark CAS and the unlink CAS")
+@rule("C02-P1", "C02", 3, "a range leaves the free list (is handed out, or accounted as discarded) only past the success edges of both the mark CAS and the unlink CAS", also=("C06",))
 def p1(ctx):
     for name in MARKING:
         b, ev, res = sync_eval(ctx, name)
